@@ -82,23 +82,22 @@ def liftE {α} (x : Except Exc α) : M α :=
   | .ok v => pure v
   | .error e => throw (.py e)
 
-/-! ### file primitives -/
+/-! ### the cursor: what reading lines and history() may change
 
-def readline : M Str := do
-  let s ← get
-  match s.pos.rest with
-  | [] => return []
-  | l :: r => set { s with pos := ⟨s.pos.no + 1, r⟩ }; return l
+  `C` computations see the reader (`Rd`, read-only) and may move the file position and the index, nothing else.
+  Everything history() does is a `C` computation, so that it cannot touch a table, the time or the step
+  (`liftC_frame` in Proofs/ListingFile.lean). -/
 
-def tell : M Pos := return (← get).pos
-def seek (p : Pos) : M Unit := modify fun s => { s with pos := p }
-def seek0 : M Unit := modify fun s => { s with pos := ⟨0, s.all⟩ }
+structure Cur where
+  pos : Pos
+  index : Int
 
-def skiplines : Nat → M Unit
-  | 0 => pure ()
-  | n + 1 => do let _ ← readline; skiplines n
+abbrev C := ReaderT Rd (StateT Cur (Except LErr))
 
-def atEof : M Bool := return (← get).pos.rest.isEmpty
+def liftC {α} (c : C α) : M α := fun s =>
+  match c s ⟨s.pos, s.index⟩ with
+  | .ok (a, cur) => .ok (a, { s with pos := cur.pos, index := cur.index })
+  | .error e => .error e
 
 /-- `skipto(keywords, start)` on the remaining lines: the keyword found and the position after that line,
     or `none` at end of file (Python returns `False`) -/
@@ -109,14 +108,6 @@ def skipToL (kws : List Str) (start : Nat) : List Str → Nat → Option Str × 
     | some kw => (some kw, ⟨n + 1, r⟩)
     | none => skipToL kws start r (n + 1)
 
-def skipto (kws : List Str) (start : Nat := 1) : M (Option Str) := do
-  let s ← get
-  let (r, p) := skipToL kws start s.pos.rest s.pos.no
-  set { s with pos := p }
-  return r
-
-def skipto1 (kw : String) (start : Nat := 1) : M (Option Str) := skipto [kw.toList] start
-
 def isBlank (l : Str) : Bool := (strip l).isEmpty
 
 /-- `skip_to_nonblank`: the position of the next non-blank line; spins at end of file -/
@@ -124,18 +115,10 @@ def skipToNonblankL : List Str → Nat → Option Pos
   | [], _ => none
   | l :: r, n => if isBlank l then skipToNonblankL r (n + 1) else some ⟨n, l :: r⟩
 
-def skipToNonblank : M Unit := do
-  let s ← get
-  match skipToNonblankL s.pos.rest s.pos.no with
-  | none => throw .diverges
-  | some p => set { s with pos := p }
-
 /-- `skip_to_blank`: the position of the next blank line (or end of file) -/
 def skipToBlankL : List Str → Nat → Pos
   | [], n => ⟨n, []⟩
   | l :: r, n => if isBlank l then ⟨n, l :: r⟩ else skipToBlankL r (n + 1)
-
-def skipToBlank : M Unit := modify fun s => { s with pos := skipToBlankL s.pos.rest s.pos.no }
 
 /-- generic line loop: read lines until `stop line` holds; `eofStops` says whether `''` ends the loop
     (otherwise the loop spins at end of file).  Returns the line that stopped it. -/
@@ -143,11 +126,67 @@ def readUntilL (stop : Str → Bool) (eofStops : Bool) : List Str → Nat → Op
   | [], n => if eofStops || stop [] then some ([], ⟨n, []⟩) else none
   | l :: r, n => if stop l then some (l, ⟨n + 1, r⟩) else readUntilL stop eofStops r (n + 1)
 
-def readUntil (stop : Str → Bool) (eofStops : Bool) : M Str := do
+namespace Cu
+
+def raise {α} (e : Exc) : C α := throw (.py e)
+def liftE {α} (x : Except Exc α) : C α :=
+  match x with
+  | .ok v => pure v
+  | .error e => throw (.py e)
+
+def readline : C Str := do
+  let s ← get
+  match s.pos.rest with
+  | [] => return []
+  | l :: r => set { s with pos := ⟨s.pos.no + 1, r⟩ }; return l
+
+def tell : C Pos := return (← get).pos
+def seek (p : Pos) : C Unit := modify fun s => { s with pos := p }
+def seek0 : C Unit := do
+  let env ← read
+  modify fun s => { s with pos := ⟨0, env.all⟩ }
+
+def skiplines : Nat → C Unit
+  | 0 => pure ()
+  | n + 1 => do let _ ← readline; skiplines n
+
+def atEof : C Bool := return (← get).pos.rest.isEmpty
+
+def skipto (kws : List Str) (start : Nat := 1) : C (Option Str) := do
+  let s ← get
+  let (r, p) := skipToL kws start s.pos.rest s.pos.no
+  set { s with pos := p }
+  return r
+
+def skipto1 (kw : String) (start : Nat := 1) : C (Option Str) := skipto [kw.toList] start
+
+def skipToNonblank : C Unit := do
+  let s ← get
+  match skipToNonblankL s.pos.rest s.pos.no with
+  | none => throw .diverges
+  | some p => set { s with pos := p }
+
+def skipToBlank : C Unit := modify fun s => { s with pos := skipToBlankL s.pos.rest s.pos.no }
+
+def readUntil (stop : Str → Bool) (eofStops : Bool) : C Str := do
   let s ← get
   match readUntilL stop eofStops s.pos.rest s.pos.no with
   | none => throw .diverges
   | some (l, p) => set { s with pos := p }; return l
+
+end Cu
+
+def readline : M Str := liftC Cu.readline
+def tell : M Pos := liftC Cu.tell
+def seek (p : Pos) : M Unit := liftC (Cu.seek p)
+def seek0 : M Unit := liftC Cu.seek0
+def skiplines (n : Nat) : M Unit := liftC (Cu.skiplines n)
+def atEof : M Bool := liftC Cu.atEof
+def skipto (kws : List Str) (start : Nat := 1) : M (Option Str) := liftC (Cu.skipto kws start)
+def skipto1 (kw : String) (start : Nat := 1) : M (Option Str) := liftC (Cu.skipto1 kw start)
+def skipToNonblank : M Unit := liftC Cu.skipToNonblank
+def skipToBlank : M Unit := liftC Cu.skipToBlank
+def readUntil (stop : Str → Bool) (eofStops : Bool) : M Str := liftC (Cu.readUntil stop eofStops)
 
 /-! ### small helpers -/
 
@@ -375,7 +414,9 @@ def tableTypeAUTOUGH2 (kw : Str) : Option String :=
 
 def S (s : String) : Str := s.toList
 
-def tableTypeTOUGH2 (h : List Str) : M (Option String) := do
+namespace Cu
+
+def tableTypeTOUGH2 (h : List Str) : C (Option String) := do
   let h2 := h.take 2
   let h3 := h.take 3
   if h2 = [S "ELEM.", S "INDEX"] || h2 = [S "ELEM.", S "IND."] then
@@ -389,7 +430,7 @@ def tableTypeTOUGH2 (h : List Str) : M (Option String) := do
   else if h3 = [S "ELEMENT", S "SOURCE", S "INDEX"] || h3 = [S "ELEM.", S "SOURCE", S "INDEX"] then return some "generation"
   else return none
 
-def tableTypePlus (h : List Str) : M (Option String) := do
+def tableTypePlus (h : List Str) : C (Option String) := do
   if h.take 2 = [S "ELEM", S "INDEX"] then
     match h[2]? with
     | none => raise .indexError
@@ -399,24 +440,25 @@ def tableTypePlus (h : List Str) : M (Option String) := do
   else return none
 
 /-- `(self.num_fulltimes > 1) and (self.index < self.num_fulltimes-1)` and `pos >= self._fullpos[self.index+1]` -/
-def pastThisResult (p : Pos) : M Bool := do
-  let s ← get
+def pastThisResult (p : Pos) : C Bool := do
+  let s ← read
+  let index := (← get).index
   let n : Int := s.fulltimes.size
-  if n > 1 && s.index < n - 1 then
+  if n > 1 && index < n - 1 then
     -- self._fullpos[self.index + 1] with Python indexing
-    let k := s.index + 1
+    let k := index + 1
     let sz : Int := s.fullpos.size
     let j := if k < 0 then k + sz else k
     if j < 0 ∨ j ≥ sz then raise .indexError
     else return p.no ≥ (s.fullpos[j.toNat]!).no
   else return false
 
-def nextTableAUTOUGH2 : M (Option String) := do
+def nextTableAUTOUGH2 : C (Option String) := do
   let l ← readline
   return tableTypeAUTOUGH2 (slice l 1 6)
 
-def nextTableTOUGH2 : M (Option String) := do
-  let rec loop : Nat → M (Option String)
+def nextTableTOUGH2 : C (Option String) := do
+  let rec loop : Nat → C (Option String)
     | 0 => throw .diverges
     | f + 1 => do
       let line ← readUntil (fun l => startsWith (strip l) (S "KCYC") && isIn (S "ITER") l) true
@@ -434,7 +476,7 @@ def nextTableTOUGH2 : M (Option String) := do
         tableTypeTOUGH2 ((splitWs line).take 3)
   loop ((← get).pos.rest.length + 2)
 
-def nextTablePlus : M (Option String) := do
+def nextTablePlus : C (Option String) := do
   match (← skipto1 "_____" 0) with
   | none => return none
   | some _ =>
@@ -446,11 +488,17 @@ def nextTablePlus : M (Option String) := do
     seek headpos
     tableTypePlus ((splitWs (strip line)).take 3)
 
-def nextTable : M (Option String) := do
-  match (← get).fam with
+def nextTable : C (Option String) := do
+  match (← read).fam with
   | .autough2 => nextTableAUTOUGH2
   | .toughplus => nextTablePlus
   | _ => nextTableTOUGH2
+
+end Cu
+
+def nextTable : M (Option String) := liftC Cu.nextTable
+def nextTableTOUGH2 : M (Option String) := liftC Cu.nextTableTOUGH2
+def nextTablePlus : M (Option String) := liftC Cu.nextTablePlus
 
 /-! ### setting up a table (layout inference) -/
 
@@ -463,17 +511,29 @@ def skipToResultsLineL (expected : Int) : List Str → Nat → Nat → Option (N
     if isResultsLine (strip l) expected then some (k, ⟨n, l :: r⟩)
     else skipToResultsLineL expected r (n + 1) (k + 1)
 
-def skipToResultsLine (expected : Int) : M Nat := do
+namespace Cu
+
+def skipToResultsLine (expected : Int) : C Nat := do
   let s ← get
   match skipToResultsLineL expected s.pos.rest s.pos.no 1 with
   | none => throw .diverges
   | some (k, p) => set { s with pos := p }; return k
 
-def tableExpectedFloats (tablename : String) (cols : List Str) : M Int := do
+def tableExpectedFloats (tablename : String) (cols : List Str) : C Int := do
   let n : Int := if tablename = "generation" then 1 else cols.length
   match cols with
   | [] => raise .indexError
   | c :: _ => return (if c = ['I'] then n - 1 else n)
+
+def getTable (name : String) : C Table := do
+  match (← read).tables.lookup name with
+  | some t => return t
+  | none => raise .keyError
+
+end Cu
+
+def skipToResultsLine (expected : Int) : M Nat := liftC (Cu.skipToResultsLine expected)
+def tableExpectedFloats (tablename : String) (cols : List Str) : M Int := liftC (Cu.tableExpectedFloats tablename cols)
 
 def parseTableHeaderTOUGH2 : M (Nat × List Str) := do
   let flow := if (← isPlus) then [S "Flow", S "Veloc"] else [S "RATE"]
@@ -605,7 +665,7 @@ def setupTableTOUGH2 (tablename : String) : M Unit := do
     let numpos ← liftE (parseTableLine st.longest start cols)
     let t : Table := { mkTable cols rows.toArray nkeys (tablename = "connection") with
                        keyPos := keypos, numpos := numpos, rowLine := some rowLine.toArray,
-                       headerSkip := headerSkip, skips := st.skips.reverse }
+                       headerSkip := headerSkip, skips := st.skips.reverse, longest := st.longest }
     putTable tablename t
     modify fun s => { s with tablenames := s.tablenames ++ [tablename] }
 
